@@ -35,6 +35,9 @@ Print Assumptions C08_add_sub_value_and_normal_form.
 Theorem C08_raw_add_normal_refuted : ~ RawAddNormal_stmt GF2Dom.
 Proof. exact RawAddNormal_refuted. Qed.
 Print Assumptions C08_raw_add_normal_refuted.
+Theorem C08_powmod_every_exponent_partial : forall T (D : Dom T), FieldOK D -> PowmodCong_stmt D.
+Proof. exact (@PowmodCong_ok). Qed.
+Print Assumptions C08_powmod_every_exponent_partial.
 Theorem C08_hypotheses_satisfiable : FieldOK GF2Dom.
 Proof. exact GF2_ok. Qed.
 Print Assumptions C08_hypotheses_satisfiable.
